@@ -14,7 +14,6 @@ use isomdl::presentation::authentication::RequestAuthenticationOutcome;
 use isomdl::presentation::device::{self, Document, Documents};
 use isomdl::presentation::{reader, Stringify};
 use p256::ecdsa::SigningKey;
-use p256::elliptic_curve::sec1::ToEncodedPoint as _;
 use rand::rngs::StdRng;
 use std::collections::BTreeMap;
 
